@@ -27,10 +27,13 @@ def converters(ctx: Ctx) -> None:
     from adaptix.conversion import get_converter
     ids = [{"w": ["a"], "us": 0, "lead": 0}, {"w": ["b"], "us": 1, "lead": 0}, {"w": ["c", "d"], "us": 0, "lead": 0}, {"w": ["rest"], "us": 0, "lead": 0}]
     shapes = []
-    for r2, r3, with_any in itertools.product((True, False), (True, False), (False, True)):
+    priv = {"w": ["p"], "us": 0, "lead": 1}        # _p: attrs spells the constructor parameter `p`
+    for r2, r3, with_any, with_priv in itertools.product((True, False), (True, False), (False, True), (False, True)):
         sh = [{"id": ids[0], "req": True, "ty": "int"}, {"id": ids[1], "req": r2, "ty": "str"}, {"id": ids[2], "req": r3, "ty": "int"}]
         if with_any:
             sh.append({"id": ids[3], "req": r3, "ty": "any"})
+        if with_priv:
+            sh.append({"id": priv, "req": r2, "ty": "int"})
         shapes.append(sh)
     n = 0
     # defaults written as truthy values / falsy values (all kinds) / None with Optional[int] (SQLAlchemy reads default=None as "no default")
